@@ -386,6 +386,7 @@ impl Sim {
         let prev_clock = seams::clock_ns();
         let prev_ent = seams::set_entropy(Some(ent));
         seams::set_clock_ns(Some(clk));
+        seams::set_mono_ns(self.now);
         let r = f(self);
         seams::set_clock_ns(prev_clock);
         let ent = seams::set_entropy(prev_ent).expect("entropy stream vanished");
